@@ -269,6 +269,15 @@ def execute(item, only=None):
                     g_cont = float(b_cont._current_charge) - c1
                     b_new, g_new, nt = check_point(model, cap, c1, pmax, ts, second, V, T, rep, stats, ctx)
                     stats["calls"] += 2
+                    # ... and once more with ANOTHER period length on the continued object (no reset in between)
+                    T_o = Ts[(Ts.index(T) + 1) % len(Ts)] if T in Ts else T * 2
+                    b_c2 = make(model, cap, charge0, pmax, ts)
+                    b_c2.charge(first, V, T)
+                    r_c2 = b_c2.charge(second, V, T_o)
+                    r_f2 = make(model, cap, c1, pmax, ts).charge(second, V, T_o)
+                    stats["calls"] += 3
+                    if not close(r_c2, r_f2, 1.0, 1e-12):
+                        rep("%s:history-dependence:period-change" % model, "after a charge with T=%r, charge(pilot=%r, T=%r) returns %r A on the continued object but %r A on a fresh battery at the same charge" % (T, second, T_o, r_c2, r_f2), r_c2, r_f2, ctx)
                     if not close(g_cont, g_new, cap, 1e-12):
                         rep("%s:history-dependence" % model, "second charge gained %r kWh on the continued object but %r on a fresh battery at the same charge" % (g_cont, g_new), g_cont, g_new, ctx)
                     if nt:
